@@ -79,7 +79,11 @@ class CNFizer(DagWalker):
                 elif not lit.is_false():
                     # Prune FALSE literals
                     simp.append(lit)
-            if simp:
+            if simp is not None:
+                if len(simp) == 0:
+                    # All the literals have been pruned: the clause
+                    # (hence the formula) is unsatisfiable
+                    return CNFizer.FALSE_CNF
                 res.append(frozenset(simp))
         return frozenset(res)
 
@@ -429,6 +433,10 @@ class NNFizer(DagWalker):
                         mgr.Not(s.arg(1))]
             elif s.is_quantifier():
                 return [mgr.Not(s.arg(0))]
+            elif s.is_ite():
+                assert self.env.stc.get_type(s).is_bool_type()
+                i, t, e = s.args()
+                return [i, mgr.Not(i), mgr.Not(t), mgr.Not(e)]
             else:
                 return [s]
 
@@ -478,6 +486,10 @@ class NNFizer(DagWalker):
             return self.mgr.Exists(s.quantifier_vars(), args[0])
         elif s.is_exists():
             return self.mgr.ForAll(s.quantifier_vars(), args[0])
+        elif s.is_ite():
+            # !(i ? t : e) == (i ? !t : !e)
+            i, ni, nt, ne = args
+            return self.mgr.And(self.mgr.Or(ni, nt), self.mgr.Or(i, ne))
         else:
             return self.mgr.Not(args[0])
 
